@@ -116,6 +116,25 @@ def openAt (ss : Sess) (i d : Nat) (r : Realm) : Sess × String :=
     let (db', mem', _) := stepAt cfg0 layout db r [] .reopen
     ((ss.putDb d db').putInst i { db := d, realm := r, mem := mem' }, "ok")
 
+/-- `rmw <i> <key> <byte>` — read-modify-write-back: `v := Get(key)`; the first byte of `v` is replaced;
+`Set(key, v)`.  A failed or empty `Get` ends it with `Get`'s answer (`empty` for the empty value). -/
+def rmwLine (ss : Sess) (i : Nat) (x : RInst) (args : List String) : Sess × String :=
+  match ss.db x.db, args with
+  | none, _ => (ss, "nodb")
+  | some db, [k, b] =>
+    match unhex k, unhex b with
+    | some kb, some [nb] =>
+      if nb.toNat ≥ 0x80 then (ss, "bad-op") else
+      let (db₁, mem₁, o₁) := stepAt cfg0 layout db x.realm x.mem (.get (encArg kb))
+      match o₁ with
+      | .found [] => ((ss.putDb x.db db₁).putInst i { x with mem := mem₁ }, "empty")
+      | .found (_ :: rest) =>
+        let (db₂, mem₂, o₂) := stepAt cfg0 layout db₁ x.realm mem₁ (.set (encArg kb) (encArg (nb :: rest)))
+        ((ss.putDb x.db db₂).putInst i { x with mem := mem₂ }, showOut o₂)
+      | o => ((ss.putDb x.db db₁).putInst i { x with mem := mem₁ }, showOut o)
+    | _, _ => (ss, "bad-op")
+  | _, _ => (ss, "bad-op")
+
 /-- Request lines: `opendb <d>` creates a database; `openr <i> <flavour> <d> <realm>` opens instance
 `i` over a realm view of database `d`; `open <i> <flavour>` opens it over a database of its own;
 then `<verb> <i> <args…>` (the flavour only selects the Go type: `add k` is `set k ""`). -/
@@ -143,6 +162,7 @@ def stepLine (ss : Sess) (toks : List String) : Sess × String :=
       match ss.inst i with
       | none => (ss, "noinst")
       | some x =>
+        if verb == "rmw" then rmwLine ss i x args else
         match ss.db x.db, parseOp (verb :: args) with
         | none, _ => (ss, "nodb")
         | _, none => (ss, "bad-op")
